@@ -399,6 +399,32 @@ func main() {
 			r.Sample(caseRec{list, jobs[len(jobs)/2].seq, jobs[len(jobs)/2].note})
 		}
 	}
+	// ---- large lists with ONE repeated address at boundary positions (word / byte boundaries of any index
+	// bookkeeping): the repeated guardian signs at both positions, alone and between other valid signers
+	for _, n := range []int{9, 33, 66, 72, 130, 255} {
+		pos := []int{0, 1, 7, 8, 31, 32, 33, 63, 64, 65, 68, 127, 128, 129, 200, 254}
+		var jobs [][2]int
+		for a := 0; a < len(pos); a++ {
+			for b := a + 1; b < len(pos); b++ {
+				if pos[b] < n {
+					jobs = append(jobs, [2]int{pos[a], pos[b]})
+				}
+			}
+		}
+		mc.ParallelFor(len(jobs), func(ji int) {
+			i, j := jobs[ji][0], jobs[ji][1]
+			list := keysRange(n)
+			list[j] = list[i] // the guardian at i also sits at j
+			run(list, []elem{{i, list[i], 0}, {j, list[i], 0}}, "repeated address signs at both of its positions", false)
+			run(list, []elem{{i, list[i], 0}}, "repeated address signs once", false)
+			run(list, []elem{{j, list[i], 0}}, "repeated address signs at its second position only", false)
+			if j-i > 1 {
+				mid := (i + j) / 2
+				run(list, []elem{{i, list[i], 0}, {mid, list[mid], 0}, {j, list[i], 0}}, "repeated address signs at both positions with another signer in between", false)
+			}
+		})
+		r.Add("repeat_boundary_cases", len(jobs)*4)
+	}
 	r.Sample(caseRec{[]int{0, 0, 1}, []elem{{0, 0, 0}, {1, 0, 0}}, "repeated address signs at two indices -> must be rejected"})
 	r.Set("evaluations", int(evals))
 	r.Set("distinct_nontrivial", int(evals)) // every enumerated case is a distinct (list, sequence) pair; all but the empty ones carry >=1 signature
